@@ -234,6 +234,8 @@ def _agg_body(win, k0, k1, c0, c1, twokeys, pattern):
     elif pattern == 1: kw = dict(sum_over=[va, va], mean_over=va); aggs = {'sum': [cn[0], cn[0]], 'mean': [cn[0]]}
     elif pattern == 2: kw = dict(min_over=[va, vb], max_over=[vb, va], stdev_over=va); aggs = {'min': [cn[0], cn[1]], 'max': [cn[1], cn[0]], 'stdev': [cn[0]]}
     elif pattern == 3: kw = dict(sum_over=va, apply={'total': (va, sum), (cn[0] or 'col'): (vb, len)}); aggs = {'sum': [cn[0]]}
+    elif pattern == 5: kw = dict(sum_over=[va, va, va], count_over=[vb, vb, vb]); aggs = {'sum': [cn[0]] * 3, 'count': [cn[1]] * 3}
+    elif pattern == 6: kw = dict(sum_over=[va, va], apply={(doc_sanitize(cn[0] or 'col') or 'col') + '_sum2': (vb, len), 'total': (va, sum)}); aggs = {'sum': [cn[0], cn[0]]}
     else: kw = dict(sum_over=[va, vb], mean_over=[va, vb], min_over=va, max_over=va, count_over=[va, vb], stdev_over=va); aggs = {'sum': [cn[0], cn[1]], 'mean': [cn[0], cn[1]], 'min': [cn[0]], 'max': [cn[0]], 'count': [cn[0], cn[1]], 'stdev': [cn[0]]}
     f = t.window if win else t.aggregate
     out = f(over=over, **kw)
@@ -257,6 +259,8 @@ def _agg_body(win, k0, k1, c0, c1, twokeys, pattern):
             sloppy.append(base)
     if pattern == 3:
         want.append(uniq('total')); want.append(uniq(cn[0] or 'col'))
+    if pattern == 6:
+        want.append(uniq((doc_sanitize(cn[0] or 'col') or 'col') + '_sum2')); want.append(uniq('total'))
     if len(got) != len(want): return H.fail('%s output has %d columns %r, expected %d' % ('window' if win else 'aggregate', len(got), got, len(want)))
     if len(set(map(repr, got))) != len(got): return H.fail('output names not pairwise distinct: %r' % (got,))
     for g, w_ in zip(got, want):
@@ -271,7 +275,7 @@ def _agg_body(win, k0, k1, c0, c1, twokeys, pattern):
 
 def h_agg(k0: int, k1: int, c0: int, c1: int, twokeys: bool, pattern: int) -> bool:
     """
-    pre: 0 <= k0 < NN and 0 <= k1 < NN and 0 <= c0 < NN and 0 <= c1 < NN and 0 <= pattern <= 4
+    pre: 0 <= k0 < NN and 0 <= k1 < NN and 0 <= c0 < NN and 0 <= c1 < NN and 0 <= pattern <= 6
     pre: twokeys or k1 == 0
     pre: H.fix(pattern=pattern)
     post: _
@@ -299,8 +303,8 @@ def obligations(tier):
         obs.append(dict(name='struct[%s]' % ORIGINS[oi], fn='h_struct', config={'oi': oi, 'names': 5 if q else NN}, budget=150 if q else 900,
                         bounds='origin %s x 24 derivations (incl. empty join / sort / slice results) x every triple of the first %d menu names' % (ORIGINS[oi], 5 if q else NN), smoke=[[oi, 0, 0, 1, 2], [oi, 14, 0, 1, 3]]))
     for win in (False, True):
-        for pattern in range(5):
+        for pattern in range(7):
             obs.append(dict(name='agg-names[%s,pattern=%d]' % ('window' if win else 'aggregate', pattern), fn='h_agg', config={'win': win, 'pattern': pattern}, budget=120 if q else 300,
-                            bounds='1-2 key columns and 2 value columns named from the menu (repeats, unnamed, unsanitary, reserved, key named like an output); 5 argument patterns incl. same column twice and apply',
+                            bounds='1-2 key columns and 2 value columns named from the menu (repeats, unnamed, unsanitary, reserved, key named like an output); 7 argument patterns incl. the same column twice / three times, an apply name that collides with a generated name',
                             smoke=[[0, 1, 3, 4, False, pattern], [2, 0, 2, 0, True, pattern]]))
     return obs
